@@ -124,7 +124,8 @@ class _UnionNormType(_BasicNormType):
     # ensure stable order of args during one interpreter session
     def _make_orderable(self, obj: object) -> str:
         if isinstance(obj, BaseNormType):
-            return f"{obj.origin} {[self._make_orderable(arg) for arg in obj.args]}"
+            # ``str`` of two classes can coincide (``<enum 'Color'>`` does not name the module), ``id`` breaks the tie
+            return f"{obj.origin} {id(obj.origin)} {[self._make_orderable(arg) for arg in obj.args]}"
         return f"{type(obj)} {obj!r}"  # ``str`` gives equal keys for literal args like ``1`` and ``'1'``
 
     def _order_args(self, args: VarTuple[BaseNormType]) -> VarTuple[BaseNormType]:
